@@ -44,6 +44,7 @@ def run(ctx):
     ctx.assume("MockProvider flavours are the environment", "virtual clock; ageing 0",
                "objects outside the roots exist as separate copies on both accounts")
     ctx.model_check("SysMC", "MC_SysMC.cfg", "design: InsideRoot guard keeps everything confined for any engine", workers=4)
+    sc.run_exemplars(ctx, CLAUSES, extra_sig=xsig)
     from .. import sysfam
     if ctx.tier == "quick":
         plan = [(2, None, 700), (3, "sim", 300)]
